@@ -273,7 +273,14 @@ std::size_t CDNS::CdnsEncoder::write(int64_t value)
 void CDNS::CdnsEncoder::flush_buffer()
 {
     if (m_p != m_buffer) {
-        m_cos->write(reinterpret_cast<const char*>(m_buffer), m_p - m_buffer);
+        try {
+            m_cos->write(reinterpret_cast<const char*>(m_buffer), m_p - m_buffer);
+        }
+        catch (...) {
+            m_write_failed = true;
+            throw;
+        }
+
         m_p = m_buffer;
         m_avail = BUFFER_SIZE;
     }
